@@ -129,10 +129,43 @@ impl Runner for SubprocessRunner {
             debug!("waiting for output (no timeout)");
         }
 
+        // the output is read in rounds of limited size: `read` looks at its time limit only
+        // when there is nothing to read, so a process that never pauses writing (`yes`) would
+        // never be timed out; between two rounds the remaining time is looked at here
+        const READ_ROUND: usize = 1 << 20;
+        let mut comm = comm.limit_size(READ_ROUND);
+        let (mut stdout, mut stderr): (Option<Vec<u8>>, Option<Vec<u8>>) = (None, None);
+        let communicated = loop {
+            let round = comm.read();
+            let (failure, capture) = match round {
+                Ok(capture) => (None, capture),
+                Err(err) => (Some(err.kind()), err.capture),
+            };
+            let read = capture.0.as_ref().map_or(0, Vec::len) + capture.1.as_ref().map_or(0, Vec::len);
+            for (all, part) in [(&mut stdout, capture.0), (&mut stderr, capture.1)] {
+                if let Some(part) = part {
+                    all.get_or_insert_with(Vec::new).extend(part);
+                }
+            }
+            if let Some(kind) = failure {
+                break Err(kind);
+            }
+            if read < READ_ROUND {
+                break Ok(());
+            }
+            if let Some(timeout) = testcase.config.timeout {
+                let left = timeout.saturating_sub(started.elapsed());
+                if left.is_zero() {
+                    break Err(ErrorKind::TimedOut);
+                }
+                comm = comm.limit_time(left);
+            }
+        };
+
         // wait for the process to finish and handle the result
-        let (stdout, stderr, exit_code) = match comm.read() {
+        let (stdout, stderr, exit_code) = match communicated {
             // successs! we are happy!
-            Ok((stdout, stderr)) => {
+            Ok(()) => {
                 // the process may have closed its output streams and still be running:
                 // the timeout applies to waiting for it to end just the same
                 let status = match testcase.config.timeout {
@@ -156,9 +189,7 @@ impl Runner for SubprocessRunner {
             }
 
             // bummer, a sad thing happened
-            Err(err) => {
-                let kind = err.kind();
-                let (stdout, stderr) = err.capture;
+            Err(kind) => {
 
                 // after a timeout (or any other failure to communicate) the process may
                 // still be running: end it, so that it neither outlives the test run nor
